@@ -326,51 +326,31 @@ def x5(ctx, rep, rule="X5"):
 
 def x4(ctx, rep, rule="X4"):
     """C05: the DEFLATE reader digests arbitrary bytes; every index, slice and unsigned subtraction in its modules is either
-    implied by guards of the same function (LIN) or a reviewed row naming the invariant that protects it."""
+    implied by guards of the same function (LIN), bounded by upper-bound inference, or a reviewed row naming the invariant that
+    protects it."""
     from ..tables import reader_bounds as RB
     from ..ub import UB
     F = ctx.lib
     U = UB(F)
-    files = ("src/huffman_encoding.rs", "src/deflate_reader.rs", "src/bit_reader.rs", "src/huffman_helper.rs")
     n = n_rev = 0
     used_rows, pending = set(), []
     for name, b in sorted(F.bodies.items()):
-        if b.file not in files:
+        if b.file not in READER_FILES:
             continue
         short = name.replace(P, "")
         try:
-            L, sites, facts, inn, out = lin.sites_and_facts(F, b)
+            st = _site_status(F, U, b)
         except Exception as e:
             rep.add(rule, "UNRECOGNISED-IDIOM:" + short, False, "%s:%s" % (b.file, b.line), "LIN evaluation failed: %s: %s" % (type(e).__name__, e))
             continue
         counts = {}
-        for s in sites:
+        for s, unproved in st:
             n += 1
-            here = [f for f in facts if lin.holds_at(b, f[0], s.bb)]
-            unproved = []
-            for what, ob in s.obligations:
-                if ob is TOP:
-                    unproved.append("%s (cannot normalise)" % what)
-                elif lin.entailed(ob, here) is None:
-                    unproved.append("%s, i.e. %s >= 0" % (what, aff_str(ob)))
             k = "%s:%s" % (s.kind, s.what)
             counts[k] = counts.get(k, 0) + 1
             key = "%s|%s%s" % (short, k, "" if counts[k] == 1 else "#%d" % counts[k])
-            if unproved and s.kind == "index":
-                # second chance for fixed-size arrays: upper-bound inference on the index (table elements, enum
-                # discriminants, masked values) against the constant length in the compiler's own bounds check
-                t = b.term(s.bb)
-                if t["k"] == "assert" and t.get("msg") == "BoundsCheck":
-                    from ..facts import op_const, const_int
-                    ln = const_int(op_const(t["ops"][0])) if op_const(t["ops"][0]) else None
-                    try:
-                        ubv = U.operand(b, t["ops"][1], at=s.bb)
-                    except Exception:
-                        ubv = None
-                    if ln is not None and ubv is not None and ubv < ln:
-                        unproved = []
             if not unproved:
-                rep.add(rule, "in-bounds:" + key, True, s.where, "implied by guards of the function / upper bound of the index")
+                rep.add(rule, "in-bounds:" + key, True, s.where, "implied by guards of the function / upper bound of the operand")
             elif (short, s.kind, s.what) in RB.ROWS:
                 n_rev += 1
                 used_rows.add((short, s.kind, s.what))
